@@ -249,6 +249,13 @@ static int c02_cmd (char *line)
           vh_out ("result prog");
           free_prog (prog, 1);
         }
+      else if (inherit_file)
+        {
+          /* load_object() would load the inherited file and retry; not followed up for pre_text compiles */
+          FREE (inherit_file);
+          inherit_file = 0;
+          vh_out ("result inherit");
+        }
       else if (thrown)
         vh_out ("result thrown");
       else if (num_parse_error > 0)
